@@ -1003,15 +1003,21 @@ func c16hiddenEdits(c *core.Ctx) {
   list l { when "v>10"; key k; leaf k { type string; } leaf v { type int32; } leaf o { type string; } container in { leaf q { type string; } } }
   leaf sw { type boolean; } choice ch { case a { leaf x { when "sw='true'"; type string; } } case b { leaf y { type string; } } }
   container c { when "z>10"; leaf z { type int32; } leaf q { type string; } }
-  container box { list bl { when "../lim>n"; key k; leaf k { type string; } leaf n { type int32; } leaf o { type string; } } leaf lim { type int32; } } }`
-	y = strings.Replace(y, `when "../lim>n"; `, ``, 1)
+  container yc { when "z>10"; leaf z { type int32; } leaf q { type string; } }
+  grouping gr { leaf ga { type string; } container gc { leaf gx { type string; } } } container u { leaf usw { type boolean; } uses gr { when "usw='true'"; } } }`
 	m, err := parser.LoadModuleFromString(nil, y)
 	if err != nil {
 		c.Violation(core.Replay{Kind: "harness", Summary: "c16hiddenEdits module: " + err.Error(), NoInputFound: true})
 		return
 	}
 	before := `{"l":[{"k":"a","v":11,"o":"x"},{"k":"b","v":1,"o":"y","in":{"q":"Q"}}],"sw":false,"y":"Y","c":{"z":5,"q":"Q"}}`
+	with := func(extra string) string { return before[:len(before)-1] + "," + extra + "}" }
 	for _, tc := range []struct{ op, at, doc, want string }{
+		// a container that does not exist yet and whose condition is false once it does: refused, and nothing of it stays
+		{"upsert", "", `{"yc":{"z":1,"q":"hi"}}`, before},
+		{"insert", "", `{"yc":{"z":1,"q":"hi"}}`, before},
+		{"upsert", "", `{"u":{"ga":"1","gc":{"gx":"2"}}}`, with(`"u":{}`)},
+		{"upsert", "", `{"u":{"usw":true,"ga":"1","gc":{"gx":"2"}}}`, with(`"u":{"usw":true,"ga":"1","gc":{"gx":"2"}}`)},
 		{"upsert", "", `{"l":[{"k":"b","o":"changed"}]}`, before},
 		{"upsert", "", `{"l":[{"k":"b","in":{"q":"changed"}}]}`, before},
 		{"update", "", `{"l":[{"k":"b","o":"changed"}]}`, before},
@@ -1036,9 +1042,12 @@ func c16hiddenEdits(c *core.Ctx) {
 				return err
 			}
 			sel := b.Root()
-			if tc.op == "upsert" {
+			switch tc.op {
+			case "upsert":
 				err = sel.UpsertFrom(src)
-			} else {
+			case "insert":
+				err = sel.InsertFrom(src)
+			default:
 				err = sel.UpdateFrom(src)
 			}
 			status = "ok"
@@ -1046,7 +1055,7 @@ func c16hiddenEdits(c *core.Ctx) {
 				status = "error " + short(err.Error())
 			}
 			// the store itself, not a read: the conditions would hide what was written
-			js, err := json.Marshal(store)
+			js, err := json.Marshal(c16stringKeys(store))
 			after = string(js)
 			return err
 		})
@@ -1061,6 +1070,26 @@ func c16hiddenEdits(c *core.Ctx) {
 				Input: map[string]interface{}{"yang": y, "before": before, "op": tc.op, "doc": tc.doc}, Impl: after, Spec: tc.want})
 		}
 	}
+}
+
+// the maps the reflection node makes for new containers have interface{} keys
+func c16stringKeys(v interface{}) interface{} {
+	rv := reflect.ValueOf(v)
+	switch rv.Kind() {
+	case reflect.Map:
+		out := map[string]interface{}{}
+		for _, k := range rv.MapKeys() {
+			out[fmt.Sprint(k.Interface())] = c16stringKeys(rv.MapIndex(k).Interface())
+		}
+		return out
+	case reflect.Slice:
+		out := []interface{}{}
+		for i := 0; i < rv.Len(); i++ {
+			out = append(out, c16stringKeys(rv.Index(i).Interface()))
+		}
+		return out
+	}
+	return v
 }
 
 // JSON numbers as the Go values a store would hold
